@@ -12,7 +12,7 @@ for d in $SRC/*/; do
   [ -f $d/patch.diff ] || continue
   cd $WT && git checkout -q -- . && rm -f rust/tests/demo.rs
   # demo on the clean tree
-  cp $d/demo.rs rust/tests/demo.rs
+  mkdir -p rust/tests && cp $d/demo.rs rust/tests/demo.rs
   (cd rust && cargo test --offline --test demo > /tmp/confirm_${PROP}_${n}_clean.log 2>&1); clean_rc=$?
   git apply $d/patch.diff || { echo "$PROP-$n: patch does not apply"; continue; }
   (cd rust && cargo test --offline --test demo > /tmp/confirm_${PROP}_${n}_mut.log 2>&1); mut_rc=$?
